@@ -716,6 +716,51 @@ fn cuckoo_real<B: std::hash::BuildHasher + Clone + Eq + Default>(hname: &str, st
     }
 }
 
+/// Bloom filter unions at bit-array lengths around the 64-bit block boundaries (m = 63 .. 65, 127 .. 129, 192, 256, 1000, 1024),
+/// default hasher: every element of either operand is present afterwards (C01) and the bit array equals the one of a filter
+/// fed both streams (C06); empty, sparse and loaded operands in both roles.
+pub fn bloom_union_blocks() -> (u64, Vec<Viol>) {
+    use pdatastructs::filters::bloomfilter::BloomFilter;
+    let mut vs: Vec<Viol> = vec![];
+    let mut cases = 0u64;
+    for m in [63usize, 64, 65, 127, 128, 129, 192, 256, 1000, 1024] {
+        for k in [1usize, 3] {
+            for (na, nb) in [(0usize, 5usize), (5, 0), (3, 3), (1, 40), (40, 1), (m / 4, m / 4)] {
+                cases += 1;
+                let cfg = json!({"structure": "BloomFilter", "hasher": "default (SipHash)", "m": m, "k": k, "elements_of_a": format!("0..{}", na), "elements_of_b": format!("1000000..1000000+{}", nb)});
+                let r = mccore::panics::catch(|| {
+                    let mut a: BloomFilter<u64> = BloomFilter::with_params(m, k);
+                    let mut b: BloomFilter<u64> = BloomFilter::with_params(m, k);
+                    let mut both: BloomFilter<u64> = BloomFilter::with_params(m, k);
+                    for x in 0..na as u64 {
+                        let _ = a.insert(&x);
+                        let _ = both.insert(&x);
+                    }
+                    for x in 0..nb as u64 {
+                        let _ = b.insert(&(1_000_000 + x));
+                        let _ = both.insert(&(1_000_000 + x));
+                    }
+                    let res = a.union(&b);
+                    let missing: Vec<u64> = (0..na as u64).chain((0..nb as u64).map(|x| 1_000_000 + x)).filter(|x| !a.query(x)).collect();
+                    (res.is_ok(), missing, a.verif_bits() == both.verif_bits(), a.m() == m)
+                });
+                match r {
+                    Err(p) => vs.push(viol("C06", format!("bloom(m={},k={}) union panics", m, k), format!("union panicked: {}", p), cfg)),
+                    Ok((ok, missing, same_bits, same_m)) => {
+                        if !missing.is_empty() {
+                            false_negative(&mut vs, "C06", format!("bloom(m={},k={}) union false negative", m, k), format!("after a.union(&b) = {} the elements {:?} of an operand are reported absent", if ok { "Ok" } else { "Err" }, &missing[..missing.len().min(5)]), cfg.clone());
+                        }
+                        if !ok || !same_bits || !same_m {
+                            vs.push(viol("C06", format!("bloom(m={},k={}) union differs from both streams", m, k), format!("a.union(&b) = {}; bit array equal to a filter fed both streams: {}; m() unchanged: {}", if ok { "Ok" } else { "Err" }, same_bits, same_m), cfg));
+                        }
+                    }
+                }
+            }
+        }
+    }
+    (cases, vs)
+}
+
 pub fn real_hasher_runs(which: &[&str]) -> (MStats, Vec<Viol>) {
     let mut st = MStats::default();
     let mut vs: Vec<Viol> = vec![];
